@@ -140,7 +140,120 @@ def h_foreign(ctx):
                    nontrivial=(framing, cls, n, form))
 
 
+# ------------------------------------------------------------------ streams whose output reaches the limit exactly at a given input offset
+def aligned_stream(p, tail):
+    """A raw DEFLATE stream whose first p octets inflate to exactly LIMIT octets (a byte-aligned block boundary at p), followed by
+    `tail` further octets of output.  Built from a compressed run of zeros, stored blocks and empty stored blocks.
+    -> (stream, the LIMIT octets the prefix inflates to)"""
+    ck = (p, tail)
+    if ck in _AL:
+        return _AL[ck]
+    for z_out in range(max(0, LIMIT - p + (LIMIT - p) // 900), LIMIT + 1):
+        c = zlib.compressobj(9, zlib.DEFLATED, -15)
+        head = (c.compress(b"\0" * z_out) + c.flush(zlib.Z_FULL_FLUSH)) if z_out else b""
+        rest = LIMIT - z_out
+        nblocks = (rest + 65534) // 65535
+        pad = p - len(head) - rest - 5 * nblocks
+        if pad < 0 or pad % 5:
+            continue
+        data = gen("period259", rest)
+        out = [head]
+        for i in range(nblocks):
+            blk = data[i * 65535:(i + 1) * 65535]
+            out.append(b"\x00" + len(blk).to_bytes(2, "little") + (len(blk) ^ 0xFFFF).to_bytes(2, "little") + blk)
+        out.append(b"\x00\x00\x00\xff\xff" * (pad // 5))
+        prefix = b"".join(out)
+        assert len(prefix) == p
+        t = zlib.compressobj(9, zlib.DEFLATED, -15)
+        stream = prefix + t.compress(b"\0" * tail) + t.flush()
+        plain = b"\0" * z_out + data
+        chk = zlib.decompressobj(-15)
+        if chk.decompress(prefix) != plain or chk.eof:
+            raise AssertionError("aligned_stream self-check failed")
+        _AL[ck] = (stream, plain)
+        return _AL[ck]
+    raise AssertionError(f"no aligned stream for p={p}")
+
+
+_AL = {}
+
+
+def h_aligned(ctx):
+    """For every input offset p that a chunked reader could stop at (multiples of 4096, thorough 1024): the output is exactly at the limit
+    when the first p octets are consumed; then nothing / one octet / 32 MiB more follow."""
+    step = 1024 if config.thorough() else 4096
+    p = ctx.choose("limit_reached_at_input_offset", list(range(step, 262144 + 3 * step, step)))
+    tail = ctx.choose("then_follow", [0, 1, 1000, 32 << 20])
+    form = ctx.choose("form", ["compact", "flattened"] if config.thorough() else ["compact"])
+    body, plain = aligned_stream(p, tail)
+    t = c16.jwe_seed("dir", "oct16", "A128GCM", form, zipv="DEF")
+    tok = c16.jwe_wire(t, form, body=body)
+    key = A.jkey(scen.key("oct16"), "dict")
+    d = scen.jwe_decrypt(tok, key, ["dir", "A128GCM", "DEF"])
+    from joserfc.errors import ExceededSizeError
+    vs = []
+    what = f"raw stream of {len(body)} octets: the first {p} inflate to exactly {LIMIT}, {tail} more follow, {form}"
+    if tail == 0:
+        if not d.ok:
+            vs.append(viol("a stream inflating to exactly the limit is not accepted (limit reached at a block boundary)", f"{what}: {d.exc!r}"))
+        elif d.value[0] != plain:
+            vs.append(viol("a stream inflating to exactly the limit is inflated to different octets", f"{what}: got {len(d.value[0])}"))
+    elif d.ok:
+        vs.append(viol("a stream expanding beyond the limit returns data (limit reached exactly at an input block boundary)", f"{what}: returned {len(d.value[0])} octets"))
+    elif not isinstance(d.exc, ExceededSizeError):
+        vs.append(viol(f"a stream expanding beyond the limit is not reported as exceeded-size ({type(d.exc).__name__})", f"{what}: {d.exc!r}"))
+    return Outcome(f"{'at-limit' if tail == 0 else 'over'}:{'ok' if d.ok else 'rej:' + d.etype}", vs, nontrivial=(p, tail, form))
+
+
+# ------------------------------------------------------------------ one JSON encryption object encrypted more than once
+def h_again(ctx):
+    """The caller keeps a JSON encryption object and serializes it again (a recipient added, a fresh CEK wanted): every serialization
+    decrypts to the plaintext the object was made with."""
+    from joserfc import jwe
+    cls_name = ctx.choose("object", ["GeneralJSONEncryption", "FlattenedJSONEncryption"])
+    enc = ctx.choose("enc", ["A128GCM", "A128CBC-HS256"])
+    zipv = ctx.choose("zip", ["DEF", None])
+    n = ctx.choose("length", [0, 1, 100, 70000])
+    between = ctx.choose("between", ["nothing", "add-recipient"] if cls_name.startswith("General") else ["nothing"])
+    times = ctx.choose("serializations", [2, 3])
+    pt = gen("period259", n)
+    from joserfc.jwk import KeySet
+    k1, k2 = A.jkey({**scen.key("oct16", 1), "kid": "k1"}, "dict"), A.jkey({**scen.key("oct16", 2), "kid": "k2"}, "dict")
+    both = KeySet([k1, k2])
+    prot = {"enc": enc}
+    if zipv:
+        prot["zip"] = zipv
+    algs = ["A128KW", enc, "DEF"]
+    obj = getattr(jwe, cls_name)(prot, pt)
+    obj.add_recipient({"alg": "A128KW", "kid": "k1"}, k1)
+    vs = []
+    what = f"{cls_name} enc={enc} zip={zipv} plaintext of {n} octets"
+    for i in range(times):
+        r = call(jwe.encrypt_json, obj, None, algorithms=algs)
+        if not r.ok:
+            vs.append(viol(f"serialization #{i + 1} of one encryption object fails", f"{what}: {r.exc!r}"))
+            break
+        try:
+            back = rjwe.decrypt(r.value, scen.key("oct16", 1))[0]
+        except RefError as e:
+            back = repr(e)
+        d = call(lambda: bytes(jwe.decrypt_json(r.value, both, algorithms=algs).plaintext))
+        if back != pt:
+            vs.append(viol(f"serialization #{i + 1} of one encryption object does not decrypt to the object's plaintext (reference decryptor)", f"{what}: {str(back)[:60]!r}"))
+        if not d.ok or d.value != pt:
+            vs.append(viol(f"serialization #{i + 1} of one encryption object does not round-trip", f"{what}: {d.exc!r} {str(d.value)[:60]!r}"))
+        if bytes(obj.plaintext or b"") != pt:
+            vs.append(viol("encryption alters the plaintext held by the caller's object", f"{what}: after serialization #{i + 1} it holds {len(obj.plaintext or b'')} octets"))
+        if between == "add-recipient" and i == 0:
+            obj.add_recipient({"alg": "A128KW", "kid": "k2"}, k2)
+    return Outcome(f"again:{'ok' if not vs else 'bad'}", vs, nontrivial=(cls_name, enc, zipv, n, between, times))
+
+
+_pa = Part("same-object-serialized-again", h_again, split_depth=2)
+_pa.single_bucket_ok = True
 PARTS = [
     Part("own-roundtrip", h_roundtrip, split_depth=3, budget={"quick": 120, "thorough": 1800}),
     Part("foreign-streams", h_foreign, split_depth=3, budget={"quick": 120, "thorough": 1800}),
+    Part("limit-reached-at-input-offsets", h_aligned, split_depth=2, budget={"quick": 120, "thorough": 1800}),
+    _pa,
 ]
